@@ -156,16 +156,16 @@ def _main(eng: Engine, tier: str, seed: int, opts: Any) -> int:
 	deadline = ev.t0 + budget
 	global _CTX
 	_CTX = (eng, seed, canon)
-	results = core.run_indexed(_work_i, range(total), deadline=deadline)
-	done = len(results)
 	violations: list[tuple[dict[str, Any], dict[str, Any]]] = []
 	known_seen: dict[str, int] = {}
-	sim_time = 0.0
-	for i, res in results:
+	state = {'done': 0, 'sim_time': 0.0}
+
+	def absorb(i: int, res: dict[str, Any]) -> None:
+		state['done'] += 1
 		ev.coverage['evaluations'] += 1
 		ev.coverage['runs'] += 1
 		ev.coverage['simulated_processes'] += res.get('processes', 0)
-		sim_time += res.get('sim_time_s', 0.0)
+		state['sim_time'] += res.get('sim_time_s', 0.0)
 		for table, counts in res.get('counters', {}).items():
 			ev.merge_counts(table, counts)
 		for key in res.get('distinct', []):
@@ -177,8 +177,12 @@ def _main(eng: Engine, tier: str, seed: int, opts: Any) -> int:
 		for v in res.get('violations', []):
 			if v.get('known'):
 				known_seen[v['known']] = known_seen.get(v['known'], 0) + 1
-			else:
-				violations.append((res, v))
+			elif len(violations) < 2000:
+				violations.append(({'case': res.get('case'), 'label': res.get('label')}, v))
+
+	core.run_indexed(_work_i, range(total), deadline=deadline, on_result=absorb)
+	done = state['done']
+	sim_time = state['sim_time']
 	for rec in eng.extra_passes(ev, tier, seed):
 		violations.append(({'case': rec['case'], 'label': rec.get('label', 'enum')}, rec['violation']))
 	ev.coverage['canonical_histories'] = len(canon)
